@@ -68,7 +68,10 @@ def handleConvert (j : Json) : Json :=
     | some "stdout" => .stdout
     | some "file" => .file "out".toList
     | _ => .returning
-  let w : World := ⟨(j.getObjValAs? Bool "logger_disabled").toOption.getD false, [], []⟩
+  let prefill : List (List Char × List (List Char)) := match j.getObjVal? "prefill" with
+    | .ok (Json.arr a) => [("out".toList, a.toList.map (fun x => match x with | Json.str l => l.toList | _ => []))]
+    | _ => []
+  let w : World := ⟨(j.getObjValAs? Bool "logger_disabled").toOption.getD false, [], prefill⟩
   let enc (p : Pair) : Json := Json.arr #[(match p.1 with | .str s => Json.str (String.ofList s) | .other _ => Json.null), Json.str (String.ofList p.2)]
   let (pairs, w') : Option (List Pair) × World :=
     if genFn then
@@ -79,9 +82,9 @@ def handleConvert (j : Json) : Json :=
       (match r.1 with | .list ps => some ps | .nothing => none, r.2)
   let world := [("logger_after", Json.bool w'.loggerDisabled),
                 ("stdout", Json.arr (w'.stdout.map (fun l => Json.str (String.ofList l))).toArray),
-                ("file", match w'.files with
-                   | (_, ls) :: _ => Json.arr (ls.map (fun l => Json.str (String.ofList l))).toArray
-                   | [] => Json.null)]
+                ("file", match w'.read "out".toList with
+                   | some ls => Json.arr (ls.map (fun l => Json.str (String.ofList l))).toArray
+                   | none => Json.null)]
   match pairs with
   | some ps => Json.mkObj ([("pairs", Json.arr (ps.map enc).toArray)] ++ world)
   | none => Json.mkObj ([("pairs", Json.arr #[]), ("none", Json.bool true)] ++ world)
@@ -286,6 +289,43 @@ def handleReact (j : Json) : Json :=
   | .error e => Json.mkObj [("kind", "error"), ("what", Json.str e)]
   | .unmodelled => Json.mkObj [("kind", "unmodelled")]
 
+def callToJson : Plan.Call → Json
+  | .chir n c => Json.arr #["chir", Json.num n, Json.str (String.singleton c)]
+  | .mark n p k => Json.arr #["mark", Json.num n, Json.num p, Json.num k]
+  | .smiles n r => Json.arr #["smiles", Json.num n, Json.num r]
+  | .root c p => Json.arr #["root", Json.num c, Json.num p]
+
+/-- `plan`: the Model of `Merger.mark` / `Merger.merge_int` on an edge list (observed in the code, and – when the glycan text is
+    given – the one the Model front-end produces), with the per-node observations `undef` (no anomer of its own) and `rings`. -/
+def handlePlan (j : Json) : Json :=
+  let edges : List Plan.Edge := match j.getObjVal? "edges" with
+    | .ok (Json.arr a) => a.toList.filterMap (fun x => match x with
+        | Json.arr #[p, c, Json.str l] => some ((p.getNat?.toOption).getD 0, (c.getNat?.toOption).getD 0, l.toList)
+        | _ => none)
+    | _ => []
+  let undef : List Bool := match j.getObjVal? "undef" with
+    | .ok (Json.arr a) => a.toList.map (fun x => match x with | Json.bool b => b | _ => false)
+    | _ => []
+  let rings : List Nat := match j.getObjVal? "rings" with
+    | .ok (Json.arr a) => a.toList.map (fun x => (x.getNat?.toOption).getD 0)
+    | _ => []
+  let pe := ((j.getObjValAs? String "pe").toOption.getD "").toList
+  let ns := Gen.dummyAtoms.length
+  let enc (r : Option (List Plan.Call)) : Json := match r with
+    | some cs => Json.arr (cs.map callToJson).toArray
+    | none => Json.null
+  let run (es : List Plan.Edge) : List (String × Json) :=
+    let fuel := undef.length + 2
+    [("mark", enc (Plan.go (Plan.markTrav (fun i => undef.getD i false) ns) es fuel 0 pe ())),
+     ("merge", enc (Plan.go (Plan.mergeTrav (fun i => rings.getD i 0) ns) es fuel 0 pe 0))]
+  let base := run edges
+  let viaModel : List (String × Json) := match (j.getObjValAs? String "s").toOption with
+    | some s => match Model.front Model.walkCfgTreeOnly true s.toList with
+      | .ok st => (run st.edges).map (fun (k, v) => (k ++ "_m", v))
+      | _ => [("front", "rejected")]
+    | none => []
+  Json.mkObj (base ++ viaModel)
+
 def handle (line : String) : Json :=
   match Json.parse line with
   | .error e => Json.mkObj [("error", Json.str e)]
@@ -316,6 +356,7 @@ def handle (line : String) : Json :=
     | some "merge" => handleMerge j
     | some "observed" => handleObserved j
     | some "react" => handleReact j
+    | some "plan" => handlePlan j
     | some "ping" => Json.mkObj [("pong", Json.bool true)]
     | _ => Json.mkObj [("error", "unknown op")]
 
